@@ -142,7 +142,15 @@ impl<IO> Connection<IO> {
 
             // Try to parse response data from the initialized section of the buffer, removing the
             // consumed parts from the buffer
+            #[cfg(feature = "verif-hooks")]
+            let verif_before = self.recv_buf.len();
             let maybe_parsed = response_builder.parse(&mut self.recv_buf)?;
+            #[cfg(feature = "verif-hooks")]
+            crate::verif_hooks::emit(crate::verif_hooks::Probe::Parsed {
+                is_async: false,
+                before: verif_before,
+                after: self.recv_buf.len(),
+            });
 
             // Update the length of the initialized section to the remaining length
             self.total_received = self.recv_buf.len();
@@ -161,8 +169,20 @@ impl<IO> Connection<IO> {
                 break Ok(Some(response));
             }
 
+            #[cfg(feature = "verif-hooks")]
+            crate::verif_hooks::emit(crate::verif_hooks::Probe::BeforeRead {
+                is_async: false,
+                buffered: self.total_received,
+                buf_len: self.recv_buf.len(),
+            });
             let (_, amount_read) =
                 read_to_buffer(&mut self.io, &mut self.recv_buf, &mut self.total_received)?;
+            #[cfg(feature = "verif-hooks")]
+            crate::verif_hooks::emit(crate::verif_hooks::Probe::AfterRead {
+                is_async: false,
+                read: amount_read,
+                buffered: self.total_received,
+            });
 
             if amount_read == 0 {
                 break if response_builder.is_frame_in_progress() || self.total_received != 0 {
@@ -383,7 +403,15 @@ impl<IO> AsyncConnection<IO> {
         let mut response_builder = ResponseBuilder::new(&mut self.0.field_cache);
 
         loop {
+            #[cfg(feature = "verif-hooks")]
+            let verif_before = self.0.recv_buf.len();
             if let Some(response) = response_builder.parse(&mut self.0.recv_buf)? {
+                #[cfg(feature = "verif-hooks")]
+                crate::verif_hooks::emit(crate::verif_hooks::Probe::Parsed {
+                    is_async: true,
+                    before: verif_before,
+                    after: self.0.recv_buf.len(),
+                });
                 debug!(
                     frames = response.successful_frames(),
                     fields = response.field_count(),
@@ -393,8 +421,27 @@ impl<IO> AsyncConnection<IO> {
                 break Ok(Some(response));
             }
 
+            #[cfg(feature = "verif-hooks")]
+            crate::verif_hooks::emit(crate::verif_hooks::Probe::Parsed {
+                is_async: true,
+                before: verif_before,
+                after: self.0.recv_buf.len(),
+            });
+
+            #[cfg(feature = "verif-hooks")]
+            crate::verif_hooks::emit(crate::verif_hooks::Probe::BeforeRead {
+                is_async: true,
+                buffered: self.0.recv_buf.len(),
+                buf_len: self.0.recv_buf.capacity(),
+            });
             let read = self.0.io.read_buf(&mut self.0.recv_buf).await?;
             trace!(read);
+            #[cfg(feature = "verif-hooks")]
+            crate::verif_hooks::emit(crate::verif_hooks::Probe::AfterRead {
+                is_async: true,
+                read,
+                buffered: self.0.recv_buf.len(),
+            });
 
             if read == 0 {
                 break if response_builder.is_frame_in_progress() || !self.0.recv_buf.is_empty() {
